@@ -23,10 +23,11 @@ HARNESSES = [
  dict(name='shape_pool2d', src='harnesses/C17.c', func='h_shape_pool2d', kernels=['C17_pool'], unwind=6,
       bounds='index::shape_pool2d + slice_pool2d, array<size_t,4> shape: N,C 1..2, H,W 1..MAXN, kernel 1..3 (<= input), stride 1..3, ceil_mode, output index: all symbolic',
       quick=[{'MAXN': 7}], thorough=[{'MAXN': 12}]),
- dict(name='max_pool2d', src='harnesses/C17.c', func='h_max_pool2d', kernels=['C17_pool'], unwind=6, bounds='view::max_pool2d; ' + PB, quick=QUICK, thorough=ALL + [_p(2, 2, 2, 1, 1, 1, 1, n=2, c=2), _p(3, 3, 2, 2, 2, 2, 1, n=1, c=2)]),
+ dict(name='max_pool2d', src='harnesses/C17.c', func='h_max_pool2d', kernels=['C17_pool'], unwind=6, timeout=1200, bounds='view::max_pool2d; ' + PB, quick=[c for i, c in enumerate(QUICK) if i not in (4, 11)], thorough=ALL +   # the two 3x3-kernel tuples (360-490 s each since the reducer has no implicit initial) are thorough-tier (part of ALL)
+       [_p(2, 2, 2, 1, 1, 1, 1, n=2, c=2), _p(3, 3, 2, 2, 2, 2, 1, n=1, c=2)]),
  dict(name='avg_pool2d', src='harnesses/C17.c', func='h_avg_pool2d', kernels=['C17_pool'], unwind=6, backend='cadical', timeout=600,
       bounds='view::avg_pool2d (float32 result); ' + PB, quick=[QUICK[3], QUICK[2], QUICK[0]], thorough=ALL),
- dict(name='max_pool2d_i8', src='harnesses/C17.c', func='h_max_pool2d_i8', kernels=['C17_pool'], unwind=6, bounds='view::max_pool2d on SIGNED int8 data (negative maxima); ' + PB, quick=[QUICK[0], QUICK[3], QUICK[4]], thorough=QUICK),
+ dict(name='max_pool2d_i8', src='harnesses/C17.c', func='h_max_pool2d_i8', kernels=['C17_pool'], unwind=6, bounds='view::max_pool2d on SIGNED int8 data (negative maxima); ' + PB, quick=[QUICK[0], QUICK[3], QUICK[5]], thorough=QUICK, timeout=1200),
  dict(name='max_pool2d_fn', src='harnesses/C17.c', func='h_max_pool2d', kernels=['C17_pool'], unwind=6, bounds='fn::apply(get_function_composition(max_pool2d view), its operands): the extracted functor with its attributes (kernel, stride, ceil mode); ' + PB,
       quick=[dict(c, VIA_FN=1) for c in (QUICK[3], QUICK[5])], thorough=[dict(c, VIA_FN=1) for c in QUICK]),
  dict(name='avg_pool2d_fn', src='harnesses/C17.c', func='h_avg_pool2d', kernels=['C17_pool'], unwind=6, backend='cadical', timeout=600,
@@ -105,5 +106,5 @@ CLAIM = dict(
       'stride, dilation (and padding in the thorough tier), batch 1..2 and every dilation pair (the two defects found here - batch > 1, dilation order - are repaired in /repo); sliding_window, expand and pad index maps equal their definitions; '
       'result shapes of softmax/softmin/linear/distances (and the norms in the thorough tier) are the input-derived shapes (structural). Thorough tier only: softmax / softmin ELEMENTS structurally (IEEE + - / and expf uninterpreted on both sides: the slice maximum is subtracted before exp, the right elements are summed in order, then divided) at constant tiny shapes; conv1d ELEMENTS equal the cross-correlation sum '
       '(mod 256, uint8 data and output index symbolic) for five constant tiny cases: plain, stride 2, two input channels, bias, dilation 2.',
- note='Pooling elements: quick = 12 tuples incl. overhanging ceil windows and the formerly failing (4,4),k=(2,1),s=(2,2),ceil case (now repaired in /repo: no exclusion needed); thorough = all H,W 1..5, k 1..3, s 1..3, ceil 0/1 (864 tuples). '
+ note='Pooling elements: quick = 10 tuples (the two 3x3-kernel tuples moved to the thorough tier: 360-490 s each) incl. overhanging ceil windows and the formerly failing (4,4),k=(2,1),s=(2,2),ceil case (now repaired in /repo: no exclusion needed); thorough = all H,W 1..5, k 1..3, s 1..3, ceil 0/1 (864 tuples). '
       'Trusted: clang-14 -O1 lowering, engine/ll2c.py, CBMC; validated per run by gate and witness assertions.')
